@@ -112,7 +112,7 @@ def judge(name, kw, variants):
             continue
         if not (accurate and accurate2):
             continue          # the solver itself flags one of the two solves as inaccurate: counted, not judged
-        if wc2 is None or abs(wc2 - wc) > 2e-5 * max(1.0, abs(wc)):
+        if wc2 is None or abs(wc2 - wc) > max(2e-5 * max(1.0, abs(wc)), 5 * e.get("floor", 2e-6)):
             probs.append(("value-moved:%s" % v, "%s(%s) = %.8g, but %r under the equivalent formulation '%s'" % (e["func"], kw, wc, wc2, v)))
     return probs, "agrees" if not probs else "disagrees"
 
